@@ -79,7 +79,16 @@ META = {
                   'findings/resolved/C13-resetdep-checker-change-drops-ignore.md; C13_pinned_resetdep_counterexample).  '
                   '"Executes on the next run" is read for tasks whose decision consults saved state (file_dep), DESIGN '
                   '§5.  The monitor is a Python predicate (set/equality tests on dumps and reports) over specification '
-                  'sets and the reset-dep record predicate evaluated by the Lean driver.',
+                  'sets and the reset-dep record predicate evaluated by the Lean driver.  Wave 4 shapes and their tie: private '
+                  'names, option spellings, DB location (sub-directory / absolute / command line options) and commands on a '
+                  'DB that does not exist are inside the model unchanged; value-saving uptodate helpers (timeout, '
+                  'check_timestamp_unchanged, an UptodateCalculator subclass) are tied through the run_once item of M2 '
+                  '(same decision rule and saved-value life cycle, value keys translated), config_changed(dict) through '
+                  'the cfg item, tuple / task-only / truthy callables through the custom item; a creator delayed by '
+                  'create_after is modelled as evaluated by the three commands, its `executed` task being a run-time '
+                  'dependency of the creator\'s own task (calc_dep edge kind); with creates= the commands see '
+                  'placeholders (open finding delayed-creates-placeholder): K skipped and counted, monitor kept; a DB in a '
+                  'missing directory is monitors-only (no command may exit 0), counted.',
     'rule': 'task sets of 2-5 creators (45% with a group of 1-2 sub-tasks; 15-20% private `_x` names; 22% with one creator delayed by create_after, a third of those with creates=; 40% of uptodate lists drawn from tuple / task-only / truthy callables, config_changed(dict), timeout, check_timestamp_unchanged, an UptodateCalculator subclass), DB file plain / in a sub-directory / absolute / given by --db-file --backend --check_file_uptodate on every command line / in a missing directory (3%, monitors only); 8% without an initial run (commands meet a DB that does not exist); forget options in both spellings (-s/--follow-sub, -a/--all, --disable-default/--enable-default); 1-2 source files, edges to earlier tasks: '
             'task_dep p=.3, setup p=.25, calc_dep p=.18 (provider with a file_dep) / .06, target->file_dep p=.3; 40% with default_tasks; a set-up prefix (write sources, '
             'full run) then 3-8 ops: runs (selection, -a, -c, failing actions), forget in 12 argument forms (names, -s, '
